@@ -20,7 +20,9 @@ RETHROW = {"JR", "JRF", "FCV"}        # new *Exception (new stack), same value
 REWRAP = {"RFW"}                      # value replaced by a GoError around fmt.Errorf("%w", err)
 SPLIT = {"PR", "JAW"}                 # the rest of the chain runs as a promise job
 ENTRIES = ["RS", "CA", "EX"]
-VALS = "P1 P2 P3 P4 O1 R1 R2 R3 G1 G3 G4 G6 V1 V2 U1 U2 U3".split()
+VALS = "P1 P2 P3 P4 O1 R1 R2 R3 G1 G3 G4 G6 V1 V2 U1 U2".split()
+# U3 (toString interrupts the runtime) is exercised by corpus lines only: any frame that stringifies the error
+# (fmt.Errorf in RFW) would legitimately trigger that interrupt in the middle of the chain
 ERRS = "E1 C2 W3 J4 I5 WI6 JI7 S8 WS12".split()
 PAYLOADS = (["jt:" + v for v in VALS] + ["js:" + k for k in "TRGS"] + ["ji", "jo"] +
             ["np:" + v for v in "P1 O1 R1 G1 V1 U1".split()] + ["npn", "nr:N0"] + ["nr:" + e for e in ERRS] +
@@ -438,12 +440,17 @@ def main(ctx):
                    "; ".join("%s x%d" % (s, len(v)) for s, v in list(by_sig.items())[:10]))
     for h in by_sig.values():
         h.sort(key=lambda x: len(x[0]))
-    order = sorted(by_sig, key=lambda s: (KNOWN.get(s, s) != s and -1 or 0, len(by_sig[s][0][0]), s))
+    order = sorted(by_sig, key=lambda s: (KNOWN.get(s, s) != s and -1 or 0, 0 if s.endswith(":jt:P1") else 1, len(by_sig[s][0][0]), s))
+    known_done = set()
     ctx.stats["violated_clauses"] = {s: len(v) for s, v in by_sig.items()}
     reported = 0
     for sig in order:
         hits = by_sig[sig]
-        if sig not in KNOWN:
+        if sig in KNOWN:
+            if KNOWN[sig] in known_done:     # one shrunk representative per known finding
+                continue
+            known_done.add(KNOWN[sig])
+        else:
             reported += 1
             if reported > 8:        # the rest is listed in evidence stats.violated_clauses
                 continue
